@@ -432,6 +432,116 @@ def _histories(jedi, env, out, cfg, base, mode, only=None):
             out.fail(site, what, detail)
 
 
+# names exactly as jedi/api/project.py checks them (_CONTAINS_POTENTIAL_PROJECT, _is_django_path)
+MARKERS = ['setup.py', '.git', '.hg', 'requirements.txt', 'MANIFEST.in', 'pyproject.toml',
+           'manage.py:django']
+DJANGO = 'import os\nos.environ.setdefault("DJANGO_SETTINGS_MODULE", "x.settings")\n'
+SAVED = [dict(sys_path=None, added=['liba'], smart=True),
+         dict(sys_path=['libb'], added=['liba', 'liba/sub'], smart=False)]
+
+
+def _ref_default_project(script_path):
+    """What get_default_project documents (and the pinned code does), read off the real file
+    system: going up from the buffer, the first folder holding .jedi/project.json wins outright;
+    a Django manage.py wins over anything above it; otherwise the first (nearest) folder with a
+    project marker, else the nearest folder without __init__.py.  Folders with an __init__.py
+    are passed over until the first folder without one has been seen.  -> (kind, folder)"""
+    first_no_init = probable = None
+    d = script_path
+    while True:
+        if os.path.isfile(os.path.join(d, '.jedi', 'project.json')):
+            return 'saved', d
+        if os.path.isdir(d):
+            skip = first_no_init is None and os.path.exists(os.path.join(d, '__init__.py'))
+            if not skip:
+                if first_no_init is None:
+                    first_no_init = d
+                try:
+                    with open(os.path.join(d, 'manage.py'), 'rb') as f:
+                        if b'DJANGO_SETTINGS_MODULE' in f.read():
+                            return 'django', d
+                except OSError:
+                    pass
+                if probable is None and any(os.path.exists(os.path.join(d, m))
+                                            for m in MARKERS[:-1]):
+                    probable = d
+        if os.path.dirname(d) == d:
+            break
+        d = os.path.dirname(d)
+    return ('marker', probable) if probable else ('no-init', first_no_init)
+
+
+def _discovery(jedi, env, out, case, base, only=None):
+    """case: pk (folders are packages?), markers [[kind, depth]], sdepth, saved (index or None)"""
+    what = ['discovery', case]
+    if only is not None and only != what:
+        return
+    root = os.path.join(base, 'mk', 'root')
+    names = ['q%d' if case['pk'] else 'd%d'] * 4
+    dirs = [root]
+    for i in range(4):
+        dirs.append(os.path.join(dirs[-1], names[i] % (i + 1)))
+    shutil.rmtree(os.path.join(base, 'mk'), ignore_errors=True)
+    for i, d in enumerate(dirs):
+        os.makedirs(d)
+        open(os.path.join(d, 's.py'), 'w').close()
+        if case['pk'] and i:
+            open(os.path.join(d, '__init__.py'), 'w').close()
+    for kind, depth in case['markers']:
+        p = os.path.join(dirs[depth], kind.split(':')[0])
+        if kind in ('.git', '.hg'):
+            os.makedirs(p, exist_ok=True)
+        else:
+            with open(p, 'w') as f:
+                f.write(DJANGO if kind.endswith(':django') else '')
+    out.n['evals'] += 1
+    out.n['discoveries'] = out.n.get('discoveries', 0) + 1
+    script_path = os.path.join(dirs[case['sdepth']], 's.py')
+    want = {'sys_path': None, 'added_sys_path': [], 'smart_sys_path': True,
+            'load_unsafe_extensions': False, 'environment_path': None}
+
+    def run():
+        if case['saved'] is not None:
+            c = SAVED[case['saved']]
+            full = lambda l: None if l is None else [os.path.join(base, x) for x in l]
+            jedi.Project(root, sys_path=full(c['sys_path']), added_sys_path=full(c['added']),
+                         smart_sys_path=c['smart']).save()
+            want.update(sys_path=full(c['sys_path']), added_sys_path=full(c['added']),
+                        smart_sys_path=c['smart'])
+        kind, folder = _ref_default_project(script_path)
+        if kind != 'saved':
+            want.update(sys_path=None, added_sys_path=[], smart_sys_path=True)
+        want['path'] = folder
+        found = jedi.get_default_project(script_path)
+        got = _settings(found)
+        fails = [('default-project-differs@' + k, {'field': k, 'expected': want[k], 'found': got[k],
+                                                   'rule': kind})
+                 for k in want if got[k] != want[k]]
+        # a Script built without project= behaves like one built with that project
+        explicit = jedi.Project.load(folder) if kind == 'saved' else jedi.Project(folder)
+        for label, proj in (('default', None), ('explicit', explicit)):
+            res = _ask(jedi, env, proj, script_path, True)
+            if label == 'default':
+                first = res
+            else:
+                for f, v in res.items():
+                    if first[f] != v:
+                        fails.append(('script-without-project-differs-from-loaded-project@' + f,
+                                      {'without_project': first[f], 'with_project': v, 'rule': kind}))
+        return kind, fails
+    ok, r = _guard(out, what, run)
+    if not ok:
+        return
+    kind, fails = r
+    out.classes.add(('discovery', kind, case['pk'], case['saved'] is not None, case['sdepth'],
+                     tuple(sorted(('django' if k.endswith('django') else 'marker',
+                                   'above' if dp <= case['sdepth'] else 'beside')
+                                  for k, dp in case['markers']))))
+    out.hit('default-project-rule:' + kind)
+    for site, detail in fails:
+        out.fail(site, what, dict(detail, script=script_path, case=case))
+
+
 def _environment_paths(jedi, out, base, only=None):
     """environment_path given as str and as Path selects the same interpreter."""
     exes = {}
@@ -467,6 +577,8 @@ def _work(task):
         env.get_sys_path()
         if task['kind'] == 'environment':
             _environment_paths(jedi, out, base, only)
+        for case in task.get('cases', []):
+            _discovery(jedi, env, out, case, base, only)
         for cfg in task.get('configs', []):
             before = len(out.fails)
             if task['kind'] == 'roundtrip':
@@ -545,6 +657,27 @@ def _tasks(tier):
     levels.append(('histories: one shared Project x all ordered pairs of script locations '
                    '(+ import probe on %d^2 pairs and %d^3 triples) vs a fresh Project'
                    % (len(PROBE_SPOTS), len(TRIPLE_SPOTS)), tasks))
+    # 5. default-project discovery: saved config at depth 0 x marker kind x marker depth x
+    #    script depth (x folders are packages) ; two markers at once ; no saved config
+    cases = []
+    for saved in (0, 1, None):
+        for pk in (False, True):
+            for sd in (1, 2, 3, 4):
+                cases.append(dict(pk=pk, markers=[], sdepth=sd, saved=saved))
+                for kind in MARKERS:
+                    for md in (0, 1, 2, 3):
+                        cases.append(dict(pk=pk, markers=[[kind, md]], sdepth=sd, saved=saved))
+    for saved in (0, None):
+        for sd in (2, 3, 4):
+            for k1, k2 in itertools.product(MARKERS, MARKERS):
+                for m1, m2 in ((1, 2), (1, 3), (2, 3)):
+                    if m2 <= sd and (quick is False or k1 != k2):
+                        cases.append(dict(pk=False, markers=[[k1, m1], [k2, m2]], sdepth=sd,
+                                          saved=saved))
+    n = 24
+    levels.append(('get_default_project: saved config / marker kind x marker depth x script depth, '
+                   'two markers, packages', [{'kind': 'discovery', 'cases': cases[i::n]}
+                                             for i in range(n)]))
     levels.append(('environment_path as str and Path', [{'kind': 'environment'}]))
     return levels
 
@@ -582,6 +715,14 @@ def run(ctx):
             hits[k] = hits.get(k, 0) + v
         for f in r['fails']:
             cfg = f.get('cfg')
+            if t['kind'] == 'discovery':
+                c = f['what'][1]
+                iid = 'discovery|saved=%s|pk=%d|script@%d|%s' % (
+                    c['saved'], c['pk'], c['sdepth'],
+                    '+'.join('%s@%d' % (k, d) for k, d in c['markers']) or 'no-marker')
+                case = {'task': {'kind': 'discovery', 'cases': [c], 'only': f['what']}}
+                ctx.violation(f['site'], iid, f['detail'], case)
+                continue
             iid = '%s|%s' % (_cfg_id(cfg) if cfg else 'environment', '/'.join(map(str, f['what'])))
             case = {'task': {'kind': t['kind'], 'configs': [cfg] if cfg else [],
                              'depth': t.get('depth', DEPTH), 'mode': t.get('mode'),
@@ -598,7 +739,8 @@ def run(ctx):
             done.append('%s: %d tasks' % (name, n))
     ctx.coverage.update({
         'states': tot.get('states', 0) + tot.get('roundtrips', 0) + tot.get('imports', 0)
-        + tot.get('histories', 0),
+        + tot.get('histories', 0) + tot.get('discoveries', 0),
+        'default_project_discoveries': tot.get('discoveries', 0),
         'histories': tot.get('histories', 0),
         'transitions': tot.get('evals', 0), 'evaluations': tot.get('evals', 0),
         'traces_validated_against_impl': tot.get('evals', 0),
